@@ -158,10 +158,27 @@ def check_value(x, rec, utils, word_dtypes=()):
                     m2 = utils.expansion2mpf(mp, ex_)
                     if mpf_value(m2) != q:
                         rec.violation("expansion-roundtrip", wit(x, word=numpy.dtype(wdt).name, expansion=[v for v in ex_]))
-                if x != 0:
+                # the other routes into an expansion: from the float itself (NumPy scalar and, for float64 values, the equal Python float), from its
+                # exact fraction, and through the dispatching number2expansion; every word has the word dtype and the words sum to the value exactly
+                routes = [("float2expansion", lambda: utils.float2expansion(wdt, x)), ("number2expansion:float", lambda: utils.number2expansion(wdt, x)),
+                          ("fraction2expansion", lambda: utils.fraction2expansion(wdt, q, length=64)), ("number2expansion:fraction", lambda: utils.number2expansion(wdt, q, length=64)),
+                          ("number2expansion:mpf", lambda: utils.number2expansion(wdt, m))]
+                if dt is numpy.float64:
+                    routes += [("float2expansion:pyfloat", lambda: utils.float2expansion(wdt, float(x))), ("number2expansion:pyfloat", lambda: utils.number2expansion(wdt, float(x)))]
+                for rname, call in routes:
+                    rec.count("expansion-routes:judged")
+                    try:
+                        words = call()
+                    except Exception as e:
+                        rec.violation("expansion-route-exception:" + rname.split(":")[0], wit(x, word=numpy.dtype(wdt).name, route=rname, exc=f"{type(e).__name__}: {e}"[:200]))
+                        continue
+                    tot = sum((exact.frac(w) for w in words), exact.frac(wdt(0)))
+                    if tot != q or not all(type(w) is wdt for w in words):
+                        rec.violation("expansion-route-value:" + rname.split(":")[0], wit(x, word=numpy.dtype(wdt).name, route=rname, expansion=[v for v in words]))
+                if True:  # zero included: mpf2multiword(0) is [] and must convert back
                     mw = utils.mpf2multiword(wdt, m)
                     with mp.workprec(max(mp.prec, 1200)):
-                        m3 = utils.multiword2mpf(mp, mw) if mw else mp.mpf(0)
+                        m3 = utils.multiword2mpf(mp, mw)
                         if mpf_value(m3) != q:
                             rec.violation("multiword-roundtrip", wit(x, word=numpy.dtype(wdt).name, multiword=[v for v in mw]))
                 ec, sc = classify(x)
@@ -293,6 +310,27 @@ def values_for(params):
         a = numpy.concatenate([gen.all_exponents_structured(rng, dt), gen.powers_of_two(dt, k=2), gen.neighbours(gen.specials(dt, nan=True), dt, k=2),
                                numpy.array([numpy.nan], dtype=dt)])
         return a[params["shard"]:: params["nshards"]]
+    if params["kind"] == "sparse":
+        # significands with two to four set bits at arbitrary distances (long runs of zero bits between the words of an expansion / multiword),
+        # over the whole exponent range including subnormals
+        f = exact.fmt(dt)
+        out = []
+        for _ in range(params["n"]):
+            nb = int(rng.integers(2, 5))
+            if rng.random() < 0.6:
+                # every set bit inside the range of the narrowest word type (float16: 2^-24 .. 2^15), so that the value is in the domain of the
+                # narrower-word conversions
+                e = int(rng.integers(-20, 16))
+                lo = max(0, f.p - 1 - (e + 24))
+                pos = sorted(set(int(v) for v in rng.integers(lo, f.p, size=nb)) | {f.p - 1})
+            else:
+                pos = sorted(set(int(v) for v in rng.integers(0, f.p, size=nb)) | {f.p - 1})
+                e = int(rng.integers(f.emin - 2, f.emax + 1))
+            man = sum(1 << q_ for q_ in pos)
+            with numpy.errstate(all="ignore"):
+                v = dt(numpy.ldexp(float(man), e - f.p + 1)) if f.bits <= 64 else None
+            out.append(v if rng.random() < 0.5 else -v)
+        return numpy.array(out, dtype=dt)
     if params["kind"] == "random":
         return gen.random_bits(rng, dt, params["n"], nan=True)
     raise ValueError(params)
@@ -322,6 +360,8 @@ def plan(tier, seed):
     for dtn in ("float32", "float64"):
         for s in range(4):
             t.append(("values", dict(kind="structured", dtype=dtn, shard=s, nshards=4, seed=seed)))
+        for s in range(2):
+            t.append(("values", dict(kind="sparse", dtype=dtn, shard=s, nshards=2, n=1500 if tier == "quick" else 100000, seed=seed)))
         nrand, nsh = (24000, 6) if tier == "quick" else (4000000, 16)
         for s in range(nsh):
             t.append(("values", dict(kind="random", dtype=dtn, shard=s, nshards=nsh, n=nrand // nsh, seed=seed)))
